@@ -373,7 +373,9 @@ def ob_layer(report):
 def check(report, tier, only=None):
     report.trusted += ['z3 5.1', 'finite-set model of HashSet (FromIterator/contains)', 'Request::peer_id returns the authenticated sender extension (C01)']
     report.outside += ['concurrent use through clones adds no behaviours (no shared mutable state) - stated, not explored', 'allow-lists with more than 2 entries (the membership model is element-wise)']
-    for n, f in (('gate_call', ob_call), ('allow_list', ob_allow_list), ('layer', ob_layer)):
+    from props import towerglue
+    for n, f in (('gate_call', ob_call), ('allow_list', ob_allow_list), ('layer', ob_layer),
+                 ('poll_ready', lambda rep: towerglue.ob_poll_ready_transparent(rep, PROP, 'RequireAuthorization', 'crates/anemo-tower/src/auth/service.rs'))):
         if only and not any(s in n for s in only):
             continue
         f(report)
